@@ -20,10 +20,12 @@ CONSTANTS Mode,        \* "revoked" | "honest"
           MaxUnwind,   \* reorganisations that take confirmed transactions out of the chain again
           Defect,      \* "none"; a planted defect of the monitor (spec mutants: TLC must refute them)
           Features     \* "dup_hash": two pending HTLCs with one payment hash
+                       \* "second": node Hub has a second unilaterally closed channel whose outputs mature meanwhile
 
 VARIABLES stage,   \* "start" | "react" | "idle" | "fair" | "done"
-          nextId, shape, blocks, reloads, unwinds, hist
-mvars == <<ovars, stage, nextId, shape, blocks, reloads, unwinds, hist>>
+          nextId, shape, blocks, reloads, unwinds, hist,
+          hold     \* the application sweeps only once the adversarial blocks are over (everything handed over by then in one go)
+mvars == <<ovars, stage, nextId, shape, blocks, reloads, unwinds, hist, hold>>
 
 H0 == 10
 ExpAt == H0 + 3            \* HTLC expiry: two blocks after the commitment confirms
@@ -57,10 +59,17 @@ Rec(by, ins, nout, sweep) ==
    outwal |-> [k \in 1..nout |-> sweep], feerate |-> 253, ok |-> TRUE, valid |-> TRUE, final |-> TRUE,
    sweep |-> sweep, dup |-> FALSE, bh |-> height, own |-> 253, weight |-> 1, inval |-> 0, onrb |-> FALSE, old |-> FALSE]
 
+\* The node with two channels (the victim in revoked mode) and what its other channel -- closed unilaterally as
+\* well, its commitment `0` confirmed somewhere below -- hands over at moments of the environment's choosing:
+\* outputs that need that channel's signer (the delayed balance / the balance on the peer's commitment).
+Hub == Other
+OtherOuts == IF "second" \in Features THEN {<<0, 1>>, <<0, 2>>} ELSE {}
+
 MCInit ==
   /\ OInit
   /\ stage = "start" /\ nextId = 3 /\ shape \in SUBSET Menu /\ blocks = 0 /\ reloads = 0 /\ unwinds = 0
   /\ hist = <<>>
+  /\ hold \in (IF "second" \in Features THEN BOOLEAN ELSE {FALSE})
 
 Live2 == IF Mode = "revoked" THEN {Other} ELSE {0, 1}
 
@@ -69,21 +78,21 @@ MOpen ==
   /\ stage = "start" /\ par.kind = "none"
   /\ Open([kind |-> Mode, live |-> Live2, owner |-> Owner, delays |-> <<144, 144>>, anti_reorg |-> AR,
            chan_type |-> "static", h |-> H0, est |-> <<253, 253>>])
-  /\ UNCHANGED <<stage, nextId, shape, blocks, reloads, unwinds, hist>>
+  /\ UNCHANGED <<stage, nextId, shape, blocks, reloads, unwinds, hist, hold>>
 MBcastCommit ==
   /\ stage = "start" /\ par.kind # "none" /\ 2 \notin DOMAIN txs
   /\ Bcast(2, Rec(IF Mode = "revoked" THEN Cheater ELSE 3, <<<<1, 0>>>>, Cardinality(shape) + 2, FALSE))
-  /\ UNCHANGED <<stage, nextId, shape, blocks, reloads, unwinds, hist>>
+  /\ UNCHANGED <<stage, nextId, shape, blocks, reloads, unwinds, hist, hold>>
 MCommit ==
   /\ stage = "start" /\ 2 \in DOMAIN txs /\ ~HasCom
   /\ Commit([tx |-> 2, owner |-> Owner, revoked |-> (Mode = "revoked"), h |-> H0 + 1, outs |-> ComOuts(shape), gone |-> FALSE,
              known |-> <<KnownAtClose(shape, 0), KnownAtClose(shape, 1)>>])
-  /\ UNCHANGED <<stage, nextId, shape, blocks, reloads, unwinds, hist>>
+  /\ UNCHANGED <<stage, nextId, shape, blocks, reloads, unwinds, hist, hold>>
 MFirstBlock ==
   /\ stage = "start" /\ HasCom
   /\ Block(height + 1, {2})
   /\ stage' = "react"
-  /\ UNCHANGED <<nextId, shape, blocks, reloads, unwinds, hist>>
+  /\ UNCHANGED <<nextId, shape, blocks, reloads, unwinds, hist, hold>>
 
 \* ---- what an ideal monitor of node n has to claim right now
 \* planted defects (spec mutants).  "ignore_unpaired": second-stage transactions whose numbers of inputs
@@ -125,7 +134,13 @@ BalItems(n) ==
        IN F(S)
 CanReact(n) == n \in par.live /\ Needs(n) # {}
 CanSpend(n) == n \in par.live /\ ComConf /\ Reportable(n) \ handed[n + 1] # {}
-CanSweep(n) == n \in par.live /\ Unswept(n) # {}
+\* planted defect "one_signer": the node's spender keeps the first channel's signer for a whole call -- asked
+\* (as OutputSweeper asks) for everything it holds, it fails as soon as that spans two channels
+SweepRefused(n) == Defect = "one_signer" /\ \E a, b \in Unswept(n) : (a[1] = 0) # (b[1] = 0)
+CanSweep(n) == n \in par.live /\ Unswept(n) # {} /\ (hold => blocks >= MaxBlocks) /\ ~SweepRefused(n)
+\* one call for everything the node holds, or one call for a single output
+SweepSets(n) == IF "second" \in Features THEN {Unswept(n)} \cup (IF hold THEN {} ELSE {{o} : o \in Unswept(n)})
+                ELSE {{CHOOSE x \in Unswept(n) : TRUE}}
 CanBal(n) == n \in par.live /\ bal[n + 1] # BalItems(n)
 First(P(_), n) == P(n) /\ \A m \in {0, 1} : m < n => ~P(m)
 None(P(_)) == \A m \in {0, 1} : ~P(m)
@@ -134,28 +149,31 @@ MReact(n) ==
   /\ stage = "react" /\ First(CanReact, n)
   /\ Bcast(nextId, Rec(n, SeqOfOps(Needs(n)), 1, FALSE))
   /\ nextId' = nextId + 1
-  /\ UNCHANGED <<stage, shape, blocks, reloads, unwinds, hist>>
+  /\ UNCHANGED <<stage, shape, blocks, reloads, unwinds, hist, hold>>
 MSpendable(n) ==
   /\ stage = "react" /\ None(CanReact) /\ First(CanSpend, n)
   /\ LET o == CHOOSE x \in Reportable(n) \ handed[n + 1] : TRUE IN
         Spendable(n, <<[op |-> o, confirmed |-> TRUE, amt |-> 1, real_amt |-> 1]>>)
-  /\ UNCHANGED <<stage, nextId, shape, blocks, reloads, unwinds, hist>>
+  /\ UNCHANGED <<stage, nextId, shape, blocks, reloads, unwinds, hist, hold>>
 MSweep(n) ==
   /\ stage = "react" /\ None(CanReact) /\ None(CanSpend) /\ First(CanSweep, n)
-  /\ LET o == CHOOSE x \in Unswept(n) : TRUE IN Sweep(n, nextId, Rec(n, <<o>>, 1, TRUE), TRUE)
+  /\ \E S \in SweepSets(n) :
+        /\ Sweep(n, nextId, Rec(n, SeqOfOps(S), 1, TRUE), S, TRUE)
+        /\ hist' = IF Cardinality(S) > 1 THEN Append(hist, [op |-> "sweep", node |-> n, k |-> Cardinality(S),
+                                                              other |-> Cardinality({o \in S : o[1] = 0})]) ELSE hist
   /\ nextId' = nextId + 1
-  /\ UNCHANGED <<stage, shape, blocks, reloads, unwinds, hist>>
+  /\ UNCHANGED <<stage, shape, blocks, reloads, unwinds, hold>>
 MBal(n) ==
   /\ stage = "react" /\ None(CanReact) /\ None(CanSpend) /\ None(CanSweep) /\ First(CanBal, n)
   /\ Balances(n, BalItems(n))
-  /\ UNCHANGED <<stage, nextId, shape, blocks, reloads, unwinds, hist>>
+  /\ UNCHANGED <<stage, nextId, shape, blocks, reloads, unwinds, hist, hold>>
 
 Settled(n) == ~CanReact(n) /\ ~CanSpend(n) /\ ~CanSweep(n) /\ ~CanBal(n)
 MCheck ==
   /\ stage = "react" /\ \A n \in par.live : Settled(n)
   /\ Checkpoint(height)
   /\ stage' = IF blocks >= MaxBlocks THEN "fair" ELSE "idle"
-  /\ UNCHANGED <<nextId, shape, blocks, reloads, unwinds, hist>>
+  /\ UNCHANGED <<nextId, shape, blocks, reloads, unwinds, hist, hold>>
 
 \* ---- the adversarial environment
 \* second-stage transactions the cheater may get confirmed now
@@ -218,13 +236,18 @@ MBlockAdv(W, S, L) ==
                                    outs |-> IF S = {} THEN <<>> ELSE LayoutOuts(lay, hs)])
   /\ nextId' = IF S = {} THEN nextId ELSE nextId + 1
   /\ blocks' = blocks + 1 /\ stage' = "react"
-  /\ UNCHANGED <<shape, reloads, unwinds>>
+  /\ UNCHANGED <<shape, reloads, unwinds, hold>>
 
 \* The chain is reorganised down to just below the commitment ("commit"), the cheater's lowest
 \* second-stage transaction ("stage2") or the victim's / nodes' lowest confirmed claim ("claim"), `x` blocks
 \* further if there is room; with `evict` the network forgets every claim of a node under test that hangs
 \* on a transaction that left the chain.  The commitment and the cheater's transactions are mined again by
 \* MBlockBack or, at the latest, by the fair blocks -- at the same height or a later one.
+\* Fork points around the block B of the target transaction: x = 0 is B - 1 (the transaction leaves the
+\* chain), x = 1 is B - 2; x = -1 is EXACTLY B (the transaction stays, whatever was built on top of its
+\* block goes -- what the node recorded for block B must survive, what it recorded above must not), x = -2
+\* is B + 1.  (Blocks on top of B need not hold any transaction of the run.)
+UnwindExtras == {-2, -1, 0, 1}
 UnwindTo(target) ==
   LET hts == IF target = "commit" THEN {conf[com.tx]}
              ELSE IF target = "stage2" THEN {conf[t] : t \in {u \in DOMAIN conf : txs[u].by = Cheater /\ u # com.tx}}
@@ -242,7 +265,7 @@ MUnwind(target, x, evict) ==
         /\ Rewind(h, ev)
         /\ hist' = Append(hist, [op |-> "unwind", target |-> target, extra |-> x, evict |-> evict, h |-> h])
   /\ unwinds' = unwinds + 1 /\ stage' = "react"
-  /\ UNCHANGED <<nextId, shape, blocks, reloads>>
+  /\ UNCHANGED <<nextId, shape, blocks, reloads, hold>>
 \* the transactions that left the chain come back (those of the cheater / the harness; with W the nodes' too)
 MBlockBack(W) ==
   /\ stage = "idle" /\ unwinds > 0
@@ -255,7 +278,7 @@ MBlockBack(W) ==
              /\ Block(height + 1, ids \cup back)
   /\ stage' = "react"
   /\ hist' = Append(hist, [op |-> "back", who |-> W, h |-> height + 1])
-  /\ UNCHANGED <<nextId, shape, blocks, reloads, unwinds>>
+  /\ UNCHANGED <<nextId, shape, blocks, reloads, unwinds, hold>>
 
 \* a fair block: everything minable confirms (newest first)
 MBlockFair ==
@@ -265,7 +288,17 @@ MBlockFair ==
         /\ \A t \in Minable \ ids : (\E u \in ids : Ins(t) \cap Ins(u) # {}) \/ ~ParentsOK(ids \cup {t})
         /\ Block(height + 1, ids)
   /\ stage' = "react"
-  /\ UNCHANGED <<nextId, shape, blocks, reloads, unwinds, hist>>
+  /\ UNCHANGED <<nextId, shape, blocks, reloads, unwinds, hist, hold>>
+
+\* an output of the node's other channel matures and is reported
+MOther(o) ==
+  /\ stage \in {"idle", "fair"} /\ Hub \in par.live
+  /\ o \in OtherOuts \ handed[Hub + 1]
+  /\ ~\E t \in DOMAIN txs : o \in Ins(t)
+  /\ Spendable(Hub, <<[op |-> o, confirmed |-> TRUE, amt |-> 1, real_amt |-> 1]>>)
+  /\ stage' = "react"
+  /\ hist' = Append(hist, [op |-> "other", node |-> Hub, out |-> o[2]])
+  /\ UNCHANGED <<nextId, shape, blocks, reloads, unwinds, hold>>
 
 \* a preimage turns up after the close (honest mode)
 MPreimage(n, r) ==
@@ -274,22 +307,23 @@ MPreimage(n, r) ==
   /\ Preimage(n, r.hash)
   /\ stage' = "react"
   /\ hist' = Append(hist, [op |-> "preimage", node |-> n, hash |-> r.hash])
-  /\ UNCHANGED <<nextId, shape, blocks, reloads, unwinds>>
+  /\ UNCHANGED <<nextId, shape, blocks, reloads, unwinds, hold>>
 
 MReload(n) ==
   /\ stage = "idle" /\ n \in par.live /\ reloads < MaxReload
   /\ Silent /\ reloads' = reloads + 1
   /\ hist' = Append(hist, [op |-> "reload", node |-> n])
-  /\ UNCHANGED <<stage, nextId, shape, blocks, unwinds>>
+  /\ UNCHANGED <<stage, nextId, shape, blocks, unwinds, hold>>
 
 AllDone == /\ ComConf /\ Minable = {}
+           /\ (Hub \in par.live => OtherOuts \subseteq handed[Hub + 1])
            /\ \A n \in par.live : Settled(n) /\ Len(bal[n + 1]) = 0 /\ Produced(n) \subseteq handed[n + 1]
            /\ \A r \in Outs : (IsHtlc(r) /\ ~Spent(OP(r))) => \A n \in par.live : ~Outbound(n, r) /\ ~(com.revoked /\ n = Victim)
 MFinal ==
   /\ stage = "fair" /\ phase = "check" /\ AllDone
-  /\ Final([unswept |-> 0, mempool_left |-> <<>>])
+  /\ Final([unswept |-> 0, mempool_left |-> <<>>, other_left |-> 0])
   /\ stage' = "done"
-  /\ UNCHANGED <<nextId, shape, blocks, reloads, unwinds, hist>>
+  /\ UNCHANGED <<nextId, shape, blocks, reloads, unwinds, hist, hold>>
 MDone == stage = "done" /\ UNCHANGED mvars
 
 Senders == IF Mode = "revoked" THEN {{}, {Other}} ELSE {{}, {0}, {1}, {0, 1}}
@@ -298,19 +332,21 @@ MCNext ==
   \/ \E n \in {0, 1} : MReact(n) \/ MSpendable(n) \/ MSweep(n) \/ MBal(n) \/ MReload(n)
   \/ MCheck
   \/ \E W \in Senders : \E S \in SUBSET (IF HasCom THEN Outs ELSE {}) : \E L \in Layouts : MBlockAdv(W, S, L)
-  \/ \E target \in {"commit", "stage2", "claim"} : \E x \in {0, 1} : \E evict \in BOOLEAN : MUnwind(target, x, evict)
+  \/ \E target \in {"commit", "stage2", "claim"} : \E x \in UnwindExtras : \E evict \in BOOLEAN : MUnwind(target, x, evict)
   \/ \E W \in Senders : MBlockBack(W)
   \/ MBlockFair
   \/ \E n \in {0, 1} : \E r \in (IF HasCom THEN Outs ELSE {}) : MPreimage(n, r)
+  \/ \E o \in OtherOuts : MOther(o)
   \/ MFinal \/ MDone
 
 MCSpec == MCInit /\ [][MCNext]_mvars
 
-View == <<ovars, stage, nextId, shape, blocks, reloads, unwinds>>
+View == <<ovars, stage, nextId, shape, blocks, reloads, unwinds, hold>>
 \* bounded liveness: under fair mining a run is over within a few blocks
 Bounded == height <= H0 + 1 + MaxBlocks + 4 * AR + 6 + 4 * MaxUnwind
 
 EmitScripts ==
   stage = "done" =>
-    PrintT(<<"SCRIPT", ToJson([mode |-> Mode, shape |-> SeqOf(shape), ops |-> hist])>>)
+    PrintT(<<"SCRIPT", ToJson([mode |-> Mode, shape |-> SeqOf(shape), ops |-> hist,
+                               second |-> ("second" \in Features), hold |-> hold])>>)
 =============================================================================
